@@ -387,6 +387,7 @@ class FContract:
     def check_post(self, ex, st, A, result):
         A = dict(A)
         A['$ex'], A['$st'] = ex, st
+        A['$locals'] = st.env
         if self.no_return:
             ex.prove(st, 'post:does-not-return', False)
             return
@@ -512,6 +513,7 @@ class ContractTable:
         self.globals_hook = None
         self.with_hook = None
         self.attr_hook = None
+        self.list_index_hook = None
         self.stmt_hooks = {}      # qual -> fn(ex, stmt, st, fi): explicit
         #                           assumption injection (listed in evidence)
         self.empty_hints = {}
